@@ -832,7 +832,15 @@ func popSession(c *core.Ctx, m *core.Model, r *rand.Rand, idx int) {
 	cas := func() []string { return append([]string{fmt.Sprintf("case=%d", idx)}, script...) }
 	note := func(f string, a ...interface{}) { script = append(script, fmt.Sprintf(f, a...)) }
 
-	st, err := mem.New(config.Storage{Type: "memory", Params: map[string]string{}}, extension.NewHost())
+	// one session in four runs on a store with a byte limit: deliveries by other clients then EVICT messages of the snapshot (the size
+	// enforcer removes the oldest), which the session must not notice in any number it reports
+	params := map[string]string{}
+	if r.Intn(4) == 0 {
+		params["maxkb"] = []string{"1", "2"}[r.Intn(2)]
+		note("store: maxkb=%s", params["maxkb"])
+		c.H("store:with-byte-limit")
+	}
+	st, err := mem.New(config.Storage{Type: "memory", Params: params}, extension.NewHost())
 	if err != nil {
 		c.Fail("setup", cas(), err.Error(), "")
 		return
@@ -929,6 +937,17 @@ func popSession(c *core.Ctx, m *core.Model, r *rand.Rand, idx int) {
 				}
 			}
 			cur[box], _ = popDump(st, box)
+			if len(params) > 0 { // a byte limit is global: the delivery may have evicted the oldest message of ANOTHER mailbox
+				for _, ob := range popBoxes {
+					if ob != box {
+						cur[ob], _ = popDump(st, ob)
+						if a := m.Ask(popStoreLine(ob, cur[ob])); a != "ok" {
+							c.Diverge("pop3-session", cas(), "store", a)
+							return
+						}
+					}
+				}
+			}
 			// implementation only: an id the session has shown keeps naming the message it named at login
 			if sh.inTrans && box == sh.user && !sh.unreliable {
 				for _, x := range cur[box] {
